@@ -13,6 +13,7 @@ from ..language import (
     DocumentNode,
     FragmentDefinitionNode,
     FragmentSpreadNode,
+    ObjectFieldNode,
     OperationDefinitionNode,
     SelectionSetNode,
     VariableDefinitionNode,
@@ -22,6 +23,7 @@ from ..language import (
     visit,
 )
 from ..pyutils import Undefined
+from ..type import get_named_type
 from ..utilities import TypeInfo, TypeInfoVisitor
 
 if TYPE_CHECKING:
@@ -82,8 +84,18 @@ class VariableUsageVisitor(Visitor):
     def enter_variable_definition(self, *_args: Any) -> VisitorAction:
         return self.SKIP
 
-    def enter_variable(self, node: VariableNode, *_args: Any) -> VisitorAction:
+    def enter_variable(
+        self, node: VariableNode, _key: Any, parent: Any, *_args: Any
+    ) -> VisitorAction:
         type_info = self._type_info
+        # The parent input type is only meaningful for a variable that is the value
+        # of an input object field; it is the (named) input object type, even when
+        # that type is wrapped in Non-Null or reached by list coercion (`[O!]`).
+        parent_input_type = (
+            get_named_type(type_info.get_parent_input_type())
+            if isinstance(parent, ObjectFieldNode)
+            else None
+        )
         fragment_definition = self._fragment_definition
         if fragment_definition:
             fragment_signature = type_info.get_fragment_signature_by_name()(
@@ -99,7 +111,7 @@ class VariableUsageVisitor(Visitor):
             usage = VariableUsage(
                 node,
                 type_info.get_input_type(),
-                type_info.get_parent_input_type(),
+                parent_input_type,
                 Undefined,
                 fragment_variable_definition,
             )
@@ -107,7 +119,7 @@ class VariableUsageVisitor(Visitor):
             usage = VariableUsage(
                 node,
                 type_info.get_input_type(),
-                type_info.get_parent_input_type(),
+                parent_input_type,
                 type_info.get_default_value(),
                 None,
             )
